@@ -308,10 +308,10 @@ def obligations(tier):
         obs.append(SetterHistory(n=2, m=2, t=1, dominance=dom, which=which))
     if tier == "quick":
         cfg = [("raw", 2, 2, 1, 1, False), ("raw", 3, 2, 2, 2, False), ("phased", 2, 1, 1, 1, False), ("unphased", 2, 2, 1, 1, False), ("phased", 2, 1, 2, 2, False),
-               ("phased", 2, 1, 1, 1, True), ("unphased", 2, 1, 1, 1, True), ("raw", 2, 2, 1, 1, True)]
+               ("phased", 2, 1, 1, 1, True), ("unphased", 2, 1, 1, 1, True), ("raw", 2, 2, 1, 1, True), ("raw", 2, 2, 1, 2, True), ("raw", 2, 1, 2, 3, True)]
     else:
         cfg = [("raw", 2, 2, 1, 1, False), ("raw", 3, 3, 2, 2, False), ("phased", 2, 1, 1, 1, False), ("phased", 2, 2, 1, 1, False), ("unphased", 2, 2, 1, 1, False),
-               ("unphased", 3, 1, 1, 1, False), ("phased", 2, 1, 2, 2, False), ("phased", 2, 2, 1, 1, True), ("unphased", 2, 2, 1, 1, True), ("raw", 3, 2, 2, 1, True), ("phased", 2, 1, 1, 2, True)]
+               ("unphased", 3, 1, 1, 1, False), ("phased", 2, 1, 2, 2, False), ("phased", 2, 2, 1, 1, True), ("unphased", 2, 2, 1, 1, True), ("raw", 3, 2, 2, 1, True), ("phased", 2, 1, 1, 2, True), ("raw", 2, 2, 1, 2, True), ("raw", 2, 1, 2, 3, True)]
     for kind, n, m, t, q, dom in cfg:
         h = Predict(kind=kind, n=n, m=m, t=t, q=q, dominance=dom)
         h.weight = (4 if kind == "phased" else 3) ** (n * m)
@@ -465,6 +465,9 @@ class GaussSeidel(Harness):
         P.prove(P.le(fprev, 0.0), "never-worse-than-the-all-zero-solution")
         if len(out["x"]) >= 2:
             x1, x2 = cells(out["x"][-2]), cells(out["x"][-1])
+            x0 = cells(out["x"][-3]) if len(out["x"]) >= 3 else [0.0] * n
+            # the solver may only stop before maxiter when the previous sweep moved no coordinate by more than atol
+            stopped = And(*([P.eq(x2[j], x1[j]) for j in range(n)] + [And(x1[j] - x0[j] <= 1e-8, x0[j] - x1[j] <= 1e-8) for j in range(n)]))
             for i in range(n):
                 r = -cell(b, i)
                 for j in range(n):
@@ -472,7 +475,7 @@ class GaussSeidel(Harness):
                 rhs = 0.0
                 for j in range(i + 1, n):
                     rhs = rhs + cell(A, i, j) * (x2[j] - x1[j])
-                P.prove(Or(And(*[P.eq(x2[j], x1[j]) for j in range(n)]), P.eq(r, rhs)),
+                P.prove(Or(stopped, P.eq(r, rhs)),
                         "residual-after-a-sweep=sum_{j>i}A_ij(x_j-xprev_j) (converged iterate solves the normal equations)")
 
 
